@@ -80,6 +80,20 @@ var levelTpls = []levelTpl{
 	}, func(t *Tape) []string {
 		return [][]string{{"-e=5"}, {"--each", "7", "-e3"}, {"-e", "1", "-e", "2"}}[t.Draw(3)]
 	}},
+	{9, "", func() []*Decl {
+		// implicit [OPTIONS]; -v may also come from the environment (the case decides whether the variable is set)
+		return []*Decl{{Kind: KBool, Name: "v verbose", EnvVars: []int{1}}, {Kind: KBool, Name: "x"}}
+	}, func(t *Tape) []string {
+		return [][]string{nil, {"-vv"}, {"-vx", "-v"}, {"-xv", "-v"}, {"-v", "-v"}, {"-vxv"}, {"-x"}}[t.Draw(7)]
+	}},
+	{10, "[X] Y", func() []*Decl {
+		return []*Decl{{IsArg: true, Kind: KString, Name: "X"}, {IsArg: true, Kind: KString, Name: "Y"}}
+	}, func(t *Tape) []string {
+		if t.Draw(2) == 0 {
+			return []string{valTok(t)}
+		}
+		return []string{valTok(t), valTok(t)}
+	}},
 }
 
 type TreeOpts struct {
